@@ -15,7 +15,7 @@ from .. import quat, stubs, sym
 from ..sarr import SArr, sarr
 from ..sym import R, real, rmax, rmin
 from . import mineral_h as mh
-from .common import all_eq, eq, np_installed, pydrex_modules, sample
+from .common import all_eq, eq, np_installed, pydrex_modules, sample, only_path
 
 TIMEOUT_MS = {"quick": 60000, "thorough": 300000}
 
@@ -26,11 +26,11 @@ def tasks(tier):
                 ("t_step", {"n_grains": 2, "steps": 1}), ("t_step", {"n_grains": 2, "steps": 3}), ("t_step", {"n_grains": 3, "steps": 2}),
                 ("t_step", {"n_grains": 2, "steps": 2, "regime": "min_viscosity"}), ("t_step", {"n_grains": 2, "steps": 2, "regime": "max_viscosity"}),
                 ("t_step", {"n_grains": 2, "steps": 2, "regime": "matrix_diffusion"}), ("t_step", {"n_grains": 2, "steps": 2, "regime": "frictional_yielding"}),
-                ("t_rhs_pure", {"n_grains": 2})]
+                ("t_rhs_pure", {"n_grains": 2}), ("t_initial_snapshot", {})]
     return [("t_extract_vars", {"n_grains": n}) for n in (1, 2, 3, 4)] + [
         ("t_step", {"n_grains": n, "steps": s, "regime": rg}) for n in (2, 3, 4) for s in (1, 2, 3)
         for rg in ("matrix_dislocation", "frictional_yielding", "matrix_diffusion", "min_viscosity", "max_viscosity")
-    ] + [("t_rhs_pure", {"n_grains": 3})]
+    ] + [("t_rhs_pure", {"n_grains": 3}), ("t_initial_snapshot", {})]
 
 
 def valid_claims(A, f, N):
@@ -64,7 +64,7 @@ def t_extract_vars(sess, n_grains):
         paths, info = sym.explore(fn)
     if len(paths) != 1 or paths[0].exc is not None:
         raise sym.HarnessError(f"unexpected paths {paths} {info}")
-    p = paths[0]
+    p = only_path(sess, paths)
     y0, y, (Fm, A, f) = p.value
     tag = f"extract_vars[N={N}]"
     for ob in p.obligations:
@@ -210,3 +210,36 @@ def t_rhs_pure(sess, n_grains):
 def default_cex(name):
     """Generic public-API replay for verdicts that carry no more specific counterexample."""
     return {"replay": "vf.props.replays:c01_history", "case": {}, "cls": {"kind": "stored snapshot invalid or altered"}}
+
+
+def t_initial_snapshot(sess):
+    """Default-constructed minerals (scipy Rotation.random, no quantified input besides seed and size): observed,
+    not decided -- a handful of (n_grains, seed) pairs through the real constructor."""
+    from .. import framework
+
+    res = framework.replay_cases([{"replay": "vf.props.C01:replay_initial", "case": {}}])[0]
+    sess.outside_claim("validity / seed-reproducibility of the default initial snapshot is sampled (reported in notes), not decided by the solver")
+    sess.notes.append(f"initial snapshot (sampled): {res.get('detail')}")
+    ok = res.get("reproduced") is False
+    q = sess.prove("sampled: default initial snapshots are valid textures and reproducible from their seed", [], z3.BoolVal(ok), tags={"sampled": True})
+    if not ok:
+        sess.cex.append({"name": q.name, "replay": "vf.props.C01:replay_initial", "case": {}, "cls": {"kind": "initial snapshot invalid or not reproducible"}})
+    sess.satisfiable("initial snapshot: reach", [])
+
+
+def replay_initial(case):
+    import numpy as np
+    import pydrex
+
+    problems = []
+    for n, seed in ((2, 0), (7, 1), (64, 12345), (500, 8)):
+        a, b = pydrex.Mineral(n_grains=n, seed=seed), pydrex.Mineral(n_grains=n, seed=seed)
+        A, f = a.orientations[0], a.fractions[0]
+        if len(a.orientations) != 1 or len(a.fractions) != 1 or A.shape != (n, 3, 3) or f.shape != (n,):
+            problems.append(f"n={n}: wrong shapes")
+            continue
+        if not (np.array_equal(A, b.orientations[0]) and np.array_equal(f, b.fractions[0])):
+            problems.append(f"n={n}, seed={seed}: not reproducible")
+        if not (np.allclose(f.sum(), 1) and f.min() >= 0 and np.allclose(np.einsum("gij,gkj->gik", A, A), np.eye(3), atol=1e-12) and np.all(np.linalg.det(A) > 0)):
+            problems.append(f"n={n}: initial snapshot is not a valid texture")
+    return {"reproduced": bool(problems), "detail": problems or "4 (n_grains, seed) pairs valid and reproducible"}
